@@ -82,16 +82,10 @@ Proof. reflexivity. Qed.
 Ltac fin := repeat split; auto; try lia; try (intros; discriminate); try (eexists; reflexivity);
   try (exists []; rewrite app_nil_r; reflexivity); try (intros [?|?]; discriminate).
 
-Section Proofs.
+Section Matching.
   Context {M : Type}.
-  Variable part : N.                      (* PART_CHUNK_SIZE *)
-  Hypothesis part_pos : 1 <= part.
-
   Notation sctx := (sctx M).
   Notation fset := (fset M).
-  Notation psnm := (@process_stream_new_msgs M part).
-  Notation feed := (@feed M part).
-  Notation sched_run := (@sched_run M part).
 
   (* ------------------------------------------------------------------ matching_idxs *)
   Lemma matching_app (fs : fset) a : forall b off,
@@ -144,6 +138,47 @@ Section Proofs.
         replace (u - off) with ((u - (off + 1)) + 1) by lia.
         rewrite firstN_succ_cons. cbn [matching_idxs]. rewrite Em, Hf. repeat split; lia.
   Qed.
+
+  (* ------------------------------------------------------------------ the invariant of the incremental index *)
+  (* the index is exactly the matching positions below the marker: nothing skipped, nothing repeated *)
+  Definition inv (all : list M) (s : sctx) : Prop :=
+    s_last s <= len all /\
+    (s_filters_active s = true -> s_filtered s = matching_idxs (s_filters s) (firstN (s_last s) all) 0) /\
+    (s_filters_active s = false -> s_filtered s = []).
+
+  Lemma set_progress_fields (s : sctx) f l :
+    s_id (set_progress s f l) = s_id s /\ s_is_stream (set_progress s f l) = s_is_stream s /\
+    s_filters_active (set_progress s f l) = s_filters_active s /\ s_filters (set_progress s f l) = s_filters s /\
+    s_filtered (set_progress s f l) = f /\ s_last (set_progress s f l) = l /\
+    s_to_end (set_progress s f l) = s_to_end s /\ s_to_start (set_progress s f l) = s_to_start s /\
+    s_sent_end (set_progress s f l) = s_sent_end s /\ s_sent_start (set_progress s f l) = s_sent_start s /\
+    s_binary (set_progress s f l) = s_binary s /\ s_is_done (set_progress s f l) = s_is_done s.
+  Proof. repeat split. Qed.
+
+  Lemma inv_arrive all ms (s : sctx) : inv all s -> inv (all ++ ms) s.
+  Proof.
+    intros [Hl [Ha Hna]]. unfold inv. rewrite len_app. split; [lia|]. split; [|exact Hna].
+    intros E. rewrite firstN_app_l by exact Hl. auto.
+  Qed.
+  Lemma inv_set_to_end all e (s : sctx) : inv all s -> inv all (set_to_end s e).
+  Proof. intros H. exact H. Qed.
+  Lemma inv_new all id is_stream binary fs a b : inv all (new_ctx id is_stream binary fs a b).
+  Proof.
+    unfold inv, new_ctx. cbn. split; [lia|]. split; reflexivity.
+  Qed.
+
+End Matching.
+
+Section Proofs.
+  Context {M : Type}.
+  Variable part : N.                      (* PART_CHUNK_SIZE *)
+  Hypothesis part_pos : 1 <= part.
+
+  Notation sctx := (sctx M).
+  Notation fset := (fset M).
+  Notation psnm := (@process_stream_new_msgs M part).
+  Notation feed := (@feed M part).
+  Notation sched_run := (@sched_run M part).
 
   (* ------------------------------------------------------------------ the query loop *)
   (* result of the loop: some prefix of [rest] (k messages) was indexed, the marker is right behind it *)
@@ -206,22 +241,6 @@ Section Proofs.
           -- split; [lia|]. split; [right; lia|lia].
         * apply andb_true_iff in Ec2. destruct Ec2 as [Ec2 _]. apply N.ltb_lt in Ec2. lia.
   Qed.
-
-  (* ------------------------------------------------------------------ the invariant of the incremental index *)
-  (* the index is exactly the matching positions below the marker: nothing skipped, nothing repeated *)
-  Definition inv (all : list M) (s : sctx) : Prop :=
-    s_last s <= len all /\
-    (s_filters_active s = true -> s_filtered s = matching_idxs (s_filters s) (firstN (s_last s) all) 0) /\
-    (s_filters_active s = false -> s_filtered s = []).
-
-  Lemma set_progress_fields (s : sctx) f l :
-    s_id (set_progress s f l) = s_id s /\ s_is_stream (set_progress s f l) = s_is_stream s /\
-    s_filters_active (set_progress s f l) = s_filters_active s /\ s_filters (set_progress s f l) = s_filters s /\
-    s_filtered (set_progress s f l) = f /\ s_last (set_progress s f l) = l /\
-    s_to_end (set_progress s f l) = s_to_end s /\ s_to_start (set_progress s f l) = s_to_start s /\
-    s_sent_end (set_progress s f l) = s_sent_end s /\ s_sent_start (set_progress s f l) = s_sent_start s /\
-    s_binary (set_progress s f l) = s_binary s /\ s_is_done (set_progress s f l) = s_is_done s.
-  Proof. repeat split. Qed.
 
   (* what one call in the protocol of the server loop does *)
   Lemma feed_spec all c (s : sctx) : inv all s -> 1 <= c ->
@@ -292,18 +311,6 @@ Section Proofs.
       destruct (set_progress_fields s (s_filtered s) (s_last s + len new)) as [E1 [E2 [E3 [E4 [E5 [E6 [E7 [E8 [E9 [E10 [E11 E12]]]]]]]]]]].
       unfold inv. rewrite E1, E2, E3, E4, E5, E6, E7, E8, E9, E10, E11, E12, Eact.
       fin.
-  Qed.
-
-  Lemma inv_arrive all ms (s : sctx) : inv all s -> inv (all ++ ms) s.
-  Proof.
-    intros [Hl [Ha Hna]]. unfold inv. rewrite len_app. split; [lia|]. split; [|exact Hna].
-    intros E. rewrite firstN_app_l by exact Hl. auto.
-  Qed.
-  Lemma inv_set_to_end all e (s : sctx) : inv all s -> inv all (set_to_end s e).
-  Proof. intros H. exact H. Qed.
-  Lemma inv_new all id is_stream binary fs a b : inv all (new_ctx id is_stream binary fs a b).
-  Proof.
-    unfold inv, new_ctx. cbn. split; [lia|]. split; reflexivity.
   Qed.
 
   (* fields that a schedule never changes, and the invariant after every schedule *)
